@@ -248,6 +248,7 @@ pub fn e2e_scenario(idx: usize, seed: u64) -> ScenarioResult {
         let mut w = World::new(seed);
         // adversary endpoints must stay alive until the scenario ends (and be dropped then)
         let mut keep_alive: Vec<Adversary> = Vec::new();
+        let mut keep_nodes: Vec<crate::world::Node> = Vec::new();
         let mut rng = StdRng::seed_from_u64(seed ^ 0xc01b);
         let lossy = rng.gen_range(0..4) == 0;
         if lossy {
@@ -426,20 +427,97 @@ pub fn e2e_scenario(idx: usize, seed: u64) -> ScenarioResult {
             }
         }
         tokio::time::sleep(Duration::from_millis(500)).await;
+        // ---- phase 3 (one scenario in three): one ip:port, two identities in succession.  An honest
+        // node Z1 talks to V from address R and shuts down; a different honest node Z2 then comes up on
+        // the same address R and talks to V.  Whatever V remembers about R, each connection carries
+        // the identity its own handshake authenticated.
+        let mut reuse_addr: std::net::SocketAddr = "127.0.0.1:1".parse().unwrap(); // set when the first party is up
+        let mut reuse: Option<(PeerId, PeerId, u64)> = None; // (z1, z2, instant of the switch)
+        let mut reuse_ids: Vec<PeerId> = Vec::new();
+        let mut reuse_stage = 0u64;
+        if idx % 3 == 0 {
+            let (k1, k2) = (w.gen_key(), w.gen_key());
+            let mut c1 = NodeCfg::new(k1);
+            c1.config.shutdown_idle_timeout_ms = Some(200);
+            let started = w.start_node(c1);
+            if let (Err(e), true) = (&started, std::env::var("VERIF_DEBUG").is_ok()) {
+                eprintln!("reuse phase: first party did not start: {e:#}");
+            }
+            if let Ok(z1) = started {
+                let z1_id = z1.peer_id;
+                reuse_ids.push(z1_id);
+                reuse_addr = z1.addr;
+                reuse_stage = 1;
+                let mut ok1 = false;
+                if z1.net.connect(v.addr).await.is_ok() {
+                    let (_, r) = world::rpc(&w.log, &z1.net, z1.idx, v.peer_id, &hostile_spec(&x, seed ^ 0x31)).await;
+                    ok1 = r.is_ok();
+                    let (_, r) = world::rpc(&w.log, &v.net, v.idx, z1_id, &hostile_spec(&y, seed ^ 0x32)).await;
+                    if let Ok(r) = &r {
+                        if r.peer_id() != Some(&z1_id) {
+                            problems.push(format!("response from the first party at {reuse_addr} attributed to {:?}", r.peer_id().map(pid_hex)));
+                        }
+                    }
+                }
+                let _ = tokio::time::timeout(Duration::from_secs(5), z1.net.shutdown()).await;
+                drop(z1);
+                tokio::time::sleep(Duration::from_millis(300)).await;
+                let t_switch = w.now();
+                if ok1 {
+                    reuse_stage = 2;
+                }
+                let mut c2 = NodeCfg::new(k2);
+                c2.bind = Some(reuse_addr);
+                // (the address may still be held by the old endpoint's draining connections: then this
+                // phase simply does not take place)
+                if let (true, Ok(z2)) = (ok1, w.start_node(c2)) {
+                    let z2_id = z2.peer_id;
+                    reuse_ids.push(z2_id);
+                    reuse = Some((z1_id, z2_id, t_switch));
+                    match z2.net.connect(v.addr).await {
+                        Ok(p) if p != v.peer_id => problems.push("the second party's dial to V returned another identity".into()),
+                        Ok(_) => {
+                            let (_, r) = world::rpc(&w.log, &z2.net, z2.idx, v.peer_id, &hostile_spec(&z1_id, seed ^ 0x33)).await;
+                            let _ = r;
+                            if !v.net.peers().contains(&z2_id) {
+                                problems.push(format!("V does not list the party that now holds {reuse_addr} under its own identity"));
+                            }
+                            // (whether V still lists the first party is a matter of when its close or the
+                            // idle timeout reaches V - C09's subject - and not judged here)
+                            let (_, r) = world::rpc(&w.log, &v.net, v.idx, z2_id, &hostile_spec(&z1_id, seed ^ 0x34)).await;
+                            if let Ok(r) = &r {
+                                if r.peer_id() != Some(&z2_id) {
+                                    problems.push(format!("response from the second party at {reuse_addr} attributed to {:?}", r.peer_id().map(pid_hex)));
+                                }
+                            }
+                        }
+                        Err(_) => {}
+                    }
+                    tokio::time::sleep(Duration::from_millis(200)).await;
+                    keep_nodes.push(z2);
+                }
+            }
+        }
         // ---- O3 over everything observed
         let g = w.log.lock();
         let mut attributions = 0u64;
         for s in &g.starts {
             let Some(addr) = s.remote_addr else { continue };
+            // the owner of the re-used address depends on the instant
+            let reuse_owner = match reuse {
+                Some((z1, z2, t)) if addr == reuse_addr => Some(if s.t_start < t { z1 } else { z2 }),
+                _ => None,
+            };
             let Some(owner) = w.registry.get(&addr) else {
                 problems.push(format!("request from unregistered address {addr}"));
                 continue;
             };
+            let owner_id = reuse_owner.unwrap_or(owner.peer_id);
             attributions += 1;
-            if s.from_full != Some(owner.peer_id.0) {
+            if s.from_full != Some(owner_id.0) {
                 problems.push(format!(
                     "handler at node {} saw peer_id {:?} for a request from {addr}, whose owner holds {}",
-                    s.node, s.from, pid_hex(&owner.peer_id)
+                    s.node, s.from, pid_hex(&owner_id)
                 ));
             }
         }
@@ -454,7 +532,7 @@ pub fn e2e_scenario(idx: usize, seed: u64) -> ScenarioResult {
             }
         }
         for p in &ids_announced {
-            if *p != x && *p != y && *p != v.peer_id {
+            if *p != x && *p != y && *p != v.peer_id && !reuse_ids.contains(p) {
                 problems.push(format!("NewPeer for unknown identity {}", pid_hex(p)));
             }
         }
@@ -485,6 +563,8 @@ pub fn e2e_scenario(idx: usize, seed: u64) -> ScenarioResult {
         let mut res = res
             .count("attributions_checked", attributions)
             .count("e2e_scenarios", 1)
+            .count("address_reuse_phases", reuse.is_some() as u64)
+            .count(&format!("address_reuse_stage_{reuse_stage}"), 1)
             .count(&format!("adv:{action_name}:admitted={:?}", admitted_as.unwrap_or(false)), 1);
         if admitted_as == Some(true) {
             res.add("adversary_admitted_as_own_identity", 1);
@@ -522,7 +602,7 @@ pub fn run(ctx: &Ctx) -> i32 {
         tier,
         seed: ctx.seed,
         level: "exploration",
-        rule: "two scenario kinds. verifier-level: per seed two key pairs, ~12 certificate classes (replayed, re-signed, planted key bytes, expired, CA, ECDSA, truncations, garbage, single-byte mutations of a valid certificate) x 3 verifiers x 2 signing keys, oracle = accepted cert AND accepted TLS1.3 signature by key K implies attributed PeerId = pub(K); end-to-end: an adversary endpoint (holding key Y only) dials / is dialed by real Networks with 10 hostile identities, interleaved with honest RPCs whose content names other identities; oracle = every PeerId attributed in handlers, responses, events and dial results equals the ground-truth owner of the remote fabric address. distinct by (certificate class set | adversary action, admitted?, loss) The planted-key class carries the other party's complete SubjectPublicKeyInfo byte for byte before the real one (serial number, BMPString name attribute) and after it (extension).".into(),
+        rule: "two scenario kinds. verifier-level: per seed two key pairs, ~12 certificate classes (replayed, re-signed, planted key bytes, expired, CA, ECDSA, truncations, garbage, single-byte mutations of a valid certificate) x 3 verifiers x 2 signing keys, oracle = accepted cert AND accepted TLS1.3 signature by key K implies attributed PeerId = pub(K); end-to-end: an adversary endpoint (holding key Y only) dials / is dialed by real Networks with 10 hostile identities, interleaved with honest RPCs whose content names other identities; oracle = every PeerId attributed in handlers, responses, events and dial results equals the ground-truth owner of the remote fabric address. distinct by (certificate class set | adversary action, admitted?, loss) The planted-key class carries the other party's complete SubjectPublicKeyInfo byte for byte before the real one (serial number, BMPString name attribute) and after it (extension). One end-to-end scenario in three adds an address re-use phase: an honest node talks to V and shuts down, a different honest node comes up on the same ip:port and talks to V; every attribution at that address is judged against the identity that held it at that instant.".into(),
         assumptions: vec![
             "Ed25519/TLS 1.3 cryptographic strength assumed; adversary limited to what rustls' public traits and DER splicing can express".into(),
         ],
